@@ -204,43 +204,24 @@ Qed.
 (* ------------------------------------------------------------------ *)
 (* string.upper / lower                                                 *)
 
-Theorem upper_lower_bytewise um s :
-  is_ascii s = true ->
-  upper_im um s = Ok (upper_spec s) /\ lower_im um s = Ok (lower_spec s) /\
+Lemma case_loop_map f s : case_loop f s = map f s.
+Proof. induction s; cbn; congruence. Qed.
+
+(* for ALL byte strings: byte-wise (ASCII letters only) and length preserving *)
+Theorem upper_lower_bytewise s :
+  upper_im s = Ok (upper_spec s) /\ lower_im s = Ok (lower_spec s) /\
   length (upper_spec s) = length s /\ length (lower_spec s) = length s.
 Proof.
-  intros H. unfold upper_im, lower_im, upper_spec, lower_spec. rewrite H.
-  rewrite !map_length. auto.
-Qed.
-
-(* The code as it stands is not byte-wise outside ASCII: whatever
-   unicode.ToUpper does, as long as it leaves U+FFFD alone (it does), the
-   one-byte string "\xff" becomes three bytes. *)
-Theorem upper_refuted um :
-  um rune_error = rune_error ->
-  exists s, upper_im um s <> Ok (upper_spec s) /\
-            (forall r, upper_im um s = Ok r -> length r = 3%nat) /\ length s = 1%nat.
-Proof.
-  intros H. exists [255]. unfold upper_im. cbn [is_ascii forallb Z.ltb Z.compare Pos.compare Pos.compare_cont andb].
-  cbn [length map_runes]. cbn [decode_rune]. cbn [Z.ltb Z.leb Z.compare Pos.compare Pos.compare_cont andb].
-  rewrite H. cbv. repeat split; try congruence.
-  intros r E. inversion E. reflexivity.
+  unfold upper_im, lower_im, upper_spec, lower_spec. rewrite !case_loop_map, !map_length. auto.
 Qed.
 
 (* ------------------------------------------------------------------ *)
-(* string.rep and plain find: the code as it stands deviates           *)
+(* string.rep: negative counts (golua's own test suite expects the error) *)
 
 Theorem rep_refuted :
   exists s n, in64 n /\ str_ok s /\ rep_im s n None = Err (ERange 2) /\ rep_spec s n None = [].
 Proof.
   exists [120], (-1). unfold in64, str_ok. vm_compute. intuition congruence.
-Qed.
-
-Theorem find_plain_refuted :
-  exists s p init, str_ok s /\ in64 init /\
-    find_plain_im s p (Some init) = Ok (Some (3, 3)) /\ find_spec s p (Some init) = Some (6, 6).
-Proof.
-  exists [97;98;99;97;98;99], [99], 4. unfold in64, str_ok. vm_compute. intuition congruence.
 Qed.
 
 (* ------------------------------------------------------------------ *)
@@ -278,6 +259,9 @@ Proof.
   change (sep_copies s sep (S (S n))) with (s ++ sep ++ sep_copies s sep (S n)).
   rewrite <- IHn. reflexivity.
 Qed.
+
+Lemma sep_copies_nil n : sep_copies [] [] n = [].
+Proof. induction n as [|[|n] IH]; cbn in *; auto. Qed.
 
 Definition osep_ok (o : option bytes) : Prop := match o with Some x => str_ok x | None => True end.
 
@@ -318,7 +302,11 @@ Proof.
         destruct (len s * n + len x * (n - 1) <? 2^63) eqn:C.
         -- apply Z.ltb_lt in C. rewrite wrap_id by (unfold in64, minint, maxint; nia).
            replace (len s * n + len x * (n - 1) <? 0) with false by (symmetry; apply Z.ltb_ge; nia).
-           split; [reflexivity|lia].
+           destruct (len s * n + len x * (n - 1) =? 0) eqn:Z0; [|split; [reflexivity|lia]].
+           apply Z.eqb_eq in Z0. split; [intros _|lia].
+           assert (len s = 0) by nia. assert (len x = 0) by nia.
+           destruct s; [|cbn [len length] in *; lia]. destruct x; [|cbn [len length] in *; lia].
+           rewrite sep_copies_nil. reflexivity.
         -- apply Z.ltb_ge in C.
            replace (wrap (len s * n + len x * (n - 1)) <? 0) with true.
            ++ split; [lia|reflexivity].
